@@ -1,9 +1,10 @@
 from contracts.sweep import CONTRACTS as _C, INFO_CONTRACTS as _I
 from contracts.writer import FetchHandleStub, WriteAttributes
-CONTRACTS = list(_C) + list(_I) + [FetchHandleStub, WriteAttributes]
+from contracts.h5graph import FetchHandle as _FH, WriteArrayAttribute
+CONTRACTS = list(_C) + list(_I) + [FetchHandleStub, WriteAttributes, _FH, WriteArrayAttribute]
 
 MANIFEST = {
     "category": "proof",
-    "text": "Mechanical sweep: every assignable attribute of every object/group/data/type class is discovered reflectively (132 setter bodies, ~1700 (class, attribute) pairs); each setter body is executed abstractly on every path and must, on every normal return, store its backing field and afterwards call update_attribute with a group that the writer's real dispatch (read from H5Writer.update_field's AST on each run) maps to that field for every concrete class inheriting the setter (coverage by the class's own _attribute_map). H5Writer.write_attributes is verified per value type never to store a value with a fixed narrower type than its own. Attribute families outside the property's list are swept too but reported as informational.",
-    "note": "Values are opaque (encodings are C08's); entity stored in an open workspace is a precondition; Workspace.update_attribute -> update_field routing and write_array_attribute/write_data_values are trusted here (C09/C08); assigning None is not treated as a new value; EM-survey and electrode linking setters belong to C20; one open known finding (KF-C03-1, project header setters).",
+    "text": "Mechanical sweep: every assignable attribute of every object/group/data/type class is discovered reflectively (132 setter bodies, ~1700 (class, attribute) pairs); each setter body is executed abstractly on every path and must, on every normal return, store its backing field and afterwards call update_attribute with a group that the writer's real dispatch (read from H5Writer.update_field's AST on each run) maps to that field for every concrete class inheriting the setter (coverage by the class's own _attribute_map). H5Writer.write_attributes is verified per value type never to store a value with a fixed narrower type than its own. H5Writer.write_array_attribute is verified over the symbolic file (T-h5) to leave exactly one new dataset holding the entity's current public value, including a value the public getter only derives on demand, and to change nothing else. Coupled fields (dip -> vertical) stored by a setter must be persisted after they are stored too. Attribute families outside the property's list are swept too but reported as informational.",
+    "note": "Values are opaque (encodings are C08's); entity stored in an open workspace is a precondition; Workspace.update_attribute -> update_field routing and write_data_values are trusted here (C09/C08); assigning None is not treated as a new value; EM-survey and electrode linking setters belong to C20; one open known finding (KF-C03-1, project header setters).",
 }
